@@ -403,6 +403,27 @@ def rule_lookup_delegation(ctx, prog, rule="R13"):
             from .rules_layout import producer_chain
             rb, re_, chain, bad = producer_chain(prog, gs, it, stop_at_field=True)
             ok = bad is None and strip(re_) == ("field", ("param", 1, "self"), "projections")
+    if not ok:
+        # loop form: `for bins in &self.projections { shape.push(bins.len()) }` – one push per iteration of an undisturbed
+        # traversal of the projections, the vector returned unchanged
+        from . import terms as T_
+        from .rules_layout import producer_chain
+        from .rules_result import returned_locals, mutation_sites
+        tg = prog.tracked(gs)
+        try:
+            lp = T_.Loop(tg)
+            it = lp.iterator()
+        except Exception:
+            it = None
+        if it is not None:
+            il, item, iinit = it
+            rb, re_, chain, bad = producer_chain(prog, tg, iinit, stop_at_field=True)
+            pushes = [pb for pb, t in tg.calls() if callee_name(t) == "push"]
+            rl = [L for _d, L in returned_locals(tg)]
+            if len(pushes) == 1 and pushes[0] in lp.blocks and bad is None and strip(re_) == ("field", ("param", 1, "self"), "projections") and \
+                    len(rl) == 1 and rl[0] is not None and {nm for _b, nm in mutation_sites(tg, rl[0])} == {"push"}:
+                pushed = strip(tg.call_arg_exprs(pushes[0])[1])
+                ok = isinstance(pushed, tuple) and pushed[0] == "call" and pushed[1] == "len" and "Bins" in pushed[2] and strip(pushed[3][0]) == strip(item)
     ctx.ob(rule, "Grid::shape/delegates", ok, gs.where(), "= projections.iter().map(Bins::len).collect()" if ok else
            "Grid::shape is `%s`" % fmt(r)[:160], what="grid shape not the per-axis bin counts in order")
     # Bins::index(i) is the range between the consecutive edges i and i+1
@@ -762,48 +783,91 @@ def rule_indices_of_tree(ctx, prog, rule="R20"):
 
 
 
+def ordered_map(prog, body):
+    """a vector produced as `value(item)` for the items of one traversal, in traversal order – spelled either as
+    `iter.map(f).collect()` or as a `for` loop with a single `push` into a vector nothing else mutates.
+    → dict(form, source=iterator expression, value=deep-stripped pushed/returned expression, item=item expression or None,
+           vbody=body in which `value` lives) or None"""
+    from . import terms as T_
+    from .rules_terms import closure_of
+    from .rules_result import mutation_sites
+    tb = prog.tracked(body)
+    for bb, t in tb.calls():
+        if callee_name(t) == "collect":
+            m = strip(tb.call_arg_exprs(bb)[0])
+            if isinstance(m, tuple) and m[0] == "call" and m[1] == "map" and len(m[3]) == 2:
+                cb, _ups = closure_of(prog, m[3][1])
+                f = strip(m[3][1])
+                if cb is not None:
+                    return dict(form="collect", source=m[3][0], value=strip(cb.return_expr()), item=("param", 2), vbody=cb, fn=None)
+                if isinstance(f, tuple) and f[0] == "fn":
+                    return dict(form="collect", source=m[3][0], value=None, item=None, vbody=None, fn=f[1])
+    try:
+        lp = T_.Loop(tb)
+        it = lp.iterator()
+    except Exception:
+        return None
+    if it is None:
+        return None
+    il, item, iinit = it
+    pushes = [pb for pb, t in tb.calls() if callee_name(t) == "push" and pb in lp.blocks]
+    if len(pushes) != 1:
+        return None
+    recv = tb.term(pushes[0])["args"][0]
+    # the vector pushed to: mutated by that push only
+    vec = None
+    for l in range(1, len(tb.raw["locals"])):
+        ms = mutation_sites(tb, l)
+        if ms and (pushes[0], "push") in ms:
+            vec = l
+            if {nm for _b, nm in ms} != {"push"} or len(ms) != 1:
+                return None
+    if vec is None:
+        return None
+    return dict(form="loop", source=iinit, value=strip(tb.call_arg_exprs(pushes[0])[1]), item=strip(item), vbody=tb, fn=None, vec=vec)
+
+
 def rule_gridbuilder(ctx, prog, rule="R9"):
     """GridBuilder keeps the column order: builder j comes from column j of the data (from_array) and projection j of the grid
     is built by builder j (build) – both through order-preserving adaptors only"""
     from .rules_layout import producer_chain
     from .rules_terms import closure_of, unwrap_try
-    # build: Grid::from(self.bin_builders.iter().map(|b| b.build()).collect())
+    # build: Grid::from(self.bin_builders.iter().map(|b| b.build()).collect())  – or the same as a push loop
     gb = prog.find("histogram::grid::GridBuilder::<B>::build")
-    ok, detail = False, "no collect() of the per-builder bins"
-    for bb, t in gb.calls():
-        if callee_name(t) == "collect":
-            m = strip(gb.call_arg_exprs(bb)[0])
-            if isinstance(m, tuple) and m[0] == "call" and m[1] == "map" and len(m[3]) == 2:
-                rb, re_, chain, bad = producer_chain(prog, gb, m[3][0], stop_at_field=True)
-                cb, _ups = closure_of(prog, m[3][1])
-                per = False
-                if cb is not None:
-                    cr = strip(cb.return_expr())
-                    per = isinstance(cr, tuple) and cr[0] == "call" and cr[1] == "build" and strip(cr[3][0])[:2] == ("param", 2)
-                elif isinstance(strip(m[3][1]), tuple) and strip(m[3][1])[0] == "fn":
-                    per = strip(m[3][1])[1].endswith("::build")
-                root_ok = strip(re_) == ("field", ("param", 1, "self"), "bin_builders")
-                ok = bad is None and per and root_ok
-                detail = "projections = bin_builders.iter().map(build).collect() in builder order" if ok else \
-                    "projections come from `%s` through %s (order-disturbing: %s), per-builder build=%s" % (fmt(re_)[:60], chain, bad, per)
+    ok, detail = False, "the projections are not produced as build(builder) over one traversal of the builders"
+    om = ordered_map(prog, gb)
+    if om is not None:
+        rb, re_, chain, bad = producer_chain(prog, prog.tracked(gb), om["source"], stop_at_field=True)
+        if om["fn"]:
+            per = om["fn"].endswith("::build")
+        else:
+            v = om["value"]
+            unw = unwrap_try(v)
+            per = isinstance(unw, tuple) and unw[0] == "call" and unw[1] == "build" and \
+                (strip(unw[3][0])[:2] == ("param", 2) if om["form"] == "collect" else strip(unw[3][0]) == om["item"])
+        root_ok = strip(re_) == ("field", ("param", 1, "self"), "bin_builders")
+        ok = bad is None and per and root_ok
+        detail = "projections = build(builder) for the builders in their own order (%s form)" % om["form"] if ok else \
+            "projections come from `%s` through %s (order-disturbing: %s), per-builder build=%s" % (fmt(re_)[:60], chain, bad, per)
     ctx.ob(rule, "GridBuilder::build/builder-order", ok, gb.where(), detail, what="projection j not built by builder j")
     # from_array: one builder per column, in column order
     fa = prog.find("histogram::grid::GridBuilder::<B>::from_array")
-    ok, detail = False, "no collect() of the per-column builders"
-    for bb, t in fa.calls():
-        if callee_name(t) == "collect":
-            m = strip(fa.call_arg_exprs(bb)[0])
-            if isinstance(m, tuple) and m[0] == "call" and m[1] == "map" and len(m[3]) == 2:
-                it = strip(m[3][0])
-                chain = []
-                while isinstance(it, tuple) and it[0] == "call" and it[1] != "axis_iter" and it[3]:
-                    chain.append(it[1])
-                    it = strip(it[3][0])
-                from .rules_layout import ORDER_PRESERVING
-                bad = [c for c in chain if c not in ORDER_PRESERVING]
-                src_ok = isinstance(it, tuple) and it[0] == "call" and it[1] == "axis_iter" and strip(it[3][0])[:2] == ("param", 1) and \
-                    isinstance(strip(it[3][1]), tuple) and strip(it[3][1])[0] == "agg" and strip(strip(it[3][1])[3][0]) == ("const", "usize", 1)
-                ok = src_ok and not bad
-                detail = "builders = array.axis_iter(Axis(1)).map(B::from_array).collect() in column order" if ok else \
-                    "columns come from `%s` through %s" % (fmt(it)[:60], chain)
+    ok, detail = False, "the builders are not produced as B::from_array(column) over one traversal of the columns"
+    om = ordered_map(prog, fa)
+    if om is not None:
+        it = strip(om["source"])
+        chain = []
+        while isinstance(it, tuple) and it[0] == "call" and it[1] != "axis_iter" and it[3]:
+            chain.append(it[1])
+            it = strip(it[3][0])
+        from .rules_layout import ORDER_PRESERVING
+        bad = [c for c in chain if c not in ORDER_PRESERVING]
+        src_ok = isinstance(it, tuple) and it[0] == "call" and it[1] == "axis_iter" and strip(it[3][0])[:2] == ("param", 1) and \
+            isinstance(strip(it[3][1]), tuple) and strip(it[3][1])[0] == "agg" and strip(strip(it[3][1])[3][0]) == ("const", "usize", 1)
+        v = unwrap_try(om["value"]) if om["value"] is not None else None
+        per = isinstance(v, tuple) and v[0] == "call" and v[1] == "from_array" and \
+            (strip(v[3][0])[:2] == ("param", 2) if om["form"] == "collect" else strip(v[3][0]) == om["item"])
+        ok = src_ok and not bad and per
+        detail = "builders = B::from_array(column) for the columns of array.axis_iter(Axis(1)) in order (%s form)" % om["form"] if ok else \
+            "columns come from `%s` through %s, per-column from_array=%s" % (fmt(it)[:60], chain, per)
     ctx.ob(rule, "GridBuilder::from_array/column-order", ok, fa.where(), detail, what="builder j not derived from column j")
